@@ -294,4 +294,36 @@ theorem applyFixes_foldr {α} :
       simp only [List.append_assoc] at this
       exact this
 
+theorem applyFixesSkipGo_spec {α} :
+    ∀ (segs : List (List α × List α × List α)) (pre last : List α) (more : List (Fix α)) (bound : Nat),
+      (pre ++ buildText3 segs last).length ≤ bound →
+      ∃ bound', pre.length ≤ bound' ∧
+        applyFixesSkipGo ((fixesOf pre.length segs).reverse ++ more) (pre ++ buildText3 segs last) bound
+          = applyFixesSkipGo more (pre ++ buildFixed segs last) bound'
+  | [], pre, last, more, bound, h => by
+      refine ⟨bound, ?_, ?_⟩
+      · simp [buildText3] at h; omega
+      · simp [fixesOf, buildText3, buildFixed]
+  | (g, t, nw) :: rest, pre, last, more, bound, h => by
+      have h' : ((pre ++ g ++ t) ++ buildText3 rest last).length ≤ bound := by
+        simpa [buildText3, List.append_assoc] using h
+      obtain ⟨b', hb', ih⟩ := applyFixesSkipGo_spec rest (pre ++ g ++ t) last
+        (⟨pre.length + g.length, pre.length + g.length + t.length, nw⟩ :: more) bound h'
+      refine ⟨pre.length + g.length, by omega, ?_⟩
+      simp only [List.length_append] at ih hb'
+      simp only [fixesOf, buildText3, buildFixed, List.reverse_cons, List.append_assoc, List.singleton_append]
+      simp only [List.append_assoc] at ih
+      rw [ih]
+      simp only [applyFixesSkipGo]
+      rw [if_pos ⟨by omega, by omega⟩]
+      have h1 : (pre ++ (g ++ (t ++ buildFixed rest last))).take (pre.length + g.length) = pre ++ g := by
+        rw [← List.append_assoc]
+        exact List.take_left' (by simp)
+      have h2 : (pre ++ (g ++ (t ++ buildFixed rest last))).drop (pre.length + g.length + t.length)
+          = buildFixed rest last := by
+        rw [← List.append_assoc, ← List.append_assoc]
+        exact List.drop_left' (by simp [Nat.add_assoc])
+      rw [h1, h2]
+      simp [List.append_assoc]
+
 end Validators
